@@ -258,11 +258,11 @@ func VerifC19ScanStep5() { VerifC19ScanStep(5) }
 func VerifC19ScanStep6() { VerifC19ScanStep(6) }
 func VerifC19ScanStep7() { VerifC19ScanStep(7) }
 func VerifC19ScanStep8() { VerifC19ScanStep(8) }
-func VerifC19Scan0() { VerifC19Scan(0) }
-func VerifC19Scan1() { VerifC19Scan(1) }
-func VerifC19Scan2() { VerifC19Scan(2) }
-func VerifC19Scan3() { VerifC19Scan(3) }
-func VerifC19Scan4() { VerifC19Scan(4) }
-func VerifC19Scan5() { VerifC19Scan(5) }
-func VerifC19Scan6() { VerifC19Scan(6) }
-func VerifC19Scan8() { VerifC19Scan(8) }
+func VerifC19Scan0()     { VerifC19Scan(0) }
+func VerifC19Scan1()     { VerifC19Scan(1) }
+func VerifC19Scan2()     { VerifC19Scan(2) }
+func VerifC19Scan3()     { VerifC19Scan(3) }
+func VerifC19Scan4()     { VerifC19Scan(4) }
+func VerifC19Scan5()     { VerifC19Scan(5) }
+func VerifC19Scan6()     { VerifC19Scan(6) }
+func VerifC19Scan8()     { VerifC19Scan(8) }
